@@ -238,7 +238,17 @@ def main(argv):
     try:
         ck = Checker(pid, tier)
         mod = importlib.import_module("qsa.rules.%s" % pid.lower())
+        from . import ctx as _ctx
+
+        _ctx.SUSPICIOUS.clear()
         mod.run(ck)
+        # feasible paths that end in an error raised by the language itself (not by a `raise` statement): recorded as evidence;
+        # the rules decide which of them are violations (several contexts provoke them on purpose)
+        seen = {}
+        for site, exc, msg, tag, implicit in _ctx.SUSPICIOUS:
+            if implicit:
+                seen.setdefault((site, exc), {"site": site, "error": exc, "message": msg[:120], "path": tag})
+        ck.extra["implicit_error_paths"] = list(seen.values())[:20]
         from . import battery
 
         # (b) imported necessary conditions: rules of other properties this one relies on (every tier, also in replay)
